@@ -802,6 +802,28 @@ def helper_lines(k, env, rep):
         rep.case(case, nontrivial=not out.startswith("err"), sample_every=3000)
         rep.count(tag)
 
+    import inspect
+
+    def sig_ok(fn, names):
+        """internal helpers are probed only while they keep the signature the probe was written for;
+        after a refactoring the end-to-end comparisons (P/U, which see the AAD and nonce through the
+        transparent AEAD) still cover them"""
+        try:
+            ok = list(inspect.signature(fn).parameters) == names
+        except (TypeError, ValueError):
+            ok = False
+        if not ok:
+            rep.notes.append(f"helper probe skipped: signature of {getattr(fn, '__qualname__', fn)} changed")
+            rep.count("helper:skipped")
+        return ok
+
+    z_ok = sig_ok(oscore.CanUnprotect._uncompress, ["option_data", "payload"]) and \
+        sig_ok(oscore.CanProtect._compress, ["protected", "unprotected", "ciphertext"])
+    n_ok = sig_ok(oscore.BaseSecurityContext._construct_nonce, ["self", "partial_iv_short", "piv_generator_id", "alg"])
+    a_ok = sig_ok(oscore.BaseSecurityContext._extract_external_aad,
+                  ["self", "message", "request_id", "local_is_sender"]) and \
+        sig_ok(oscore.SymmetricEncryptionAlgorithm._build_encrypt0_structure, ["protected", "external_aad"])
+
     # Z: _uncompress/_compress
     zvals = [b"", b"\x10", b"\x11\x01", b"\x00", b"\x00\xff", b"\x08", b"\x09\x00", b"\x19\x05\x00",
              b"\x19\x05\x01\xaa", b"\x19\x05\x01\xaa\xbb", b"\x06" + b"\0" * 6, b"\x07" + b"\0" * 7,
@@ -824,7 +846,7 @@ def helper_lines(k, env, rep):
         else:
             v = bytes([rng.randrange(64)]) + bytes(rng.randrange(256) for _ in range(rng.randrange(0, 12)))
         zvals.append(v)
-    for v in zvals:
+    for v in (zvals if z_ok else []):
         try:
             _, _, u, _ = oscore.CanUnprotect._uncompress(v, b"")
             piv = u.get(oscore.COSE_PIV)
@@ -859,7 +881,7 @@ def helper_lines(k, env, rep):
         add({"z": hx(v)}, f"C11 Z {hx(v)}", out, "helper:Z")
 
     # N: _construct_nonce
-    for ivb in (7, 12, 13):
+    for ivb in ((7, 12, 13) if n_ok else ()):
         alg = k.Aead(10, ivb)
         civ = bytes(rng.randrange(256) for _ in range(ivb))
         ctx = k.Ctx(alg, b"", b"\x01", None, b"s", b"")
@@ -880,7 +902,7 @@ def helper_lines(k, env, rep):
     algs = [1, 10, 23, 24, 30, 255, 256, 65535, 65536]
     combos = [(a, kl, pl) for a in algs for kl in (0, 1, 7) for pl in (1, 5)] + \
         [(10, kl, pl) for kl in lens for pl in (0, 1, 5, 23, 24)] + [(10, 1, pl) for pl in lens]
-    for a, kl, pl in combos:
+    for a, kl, pl in (combos if a_ok else []):
         kid = bytes(rng.randrange(256) for _ in range(kl))
         piv = bytes(rng.randrange(256) for _ in range(pl))
         ctx = k.Ctx(k.Aead(a, 13), b"", b"\x01", None, b"s", b"")
